@@ -53,8 +53,15 @@ def pDict {κ} (fk : Json → Except String κ) (j : Json) : Except String (Dict
 def pNested (j : Json) : Except String (List (Nat × Dict Cand)) := do
   (← pArr j).mapM (pPair pNat (pDict pNat))
 
-def pVal (kind : String) (j : Json) : Except String Val :=
+def pNDict : Nat → Json → Except String (NDict Cand)
+  | 0, j => NDict.leaf <$> pDict pNat j
+  | n + 1, j => do
+    let l ← (← pArr j).mapM (pPair pNat (pNDict n))
+    pure (.node l)
+
+def pVal (kind : String) (j : Json) (depth : Nat := 0) : Except String Val :=
   match kind with
+  | "deep" => Val.deep <$> pNDict depth j
   | "simple" => Val.simple <$> pDict pNat j
   | "items" => Val.items <$> pDict pItem j
   | "approval" => Val.approval <$> pDict pApproval j
@@ -113,7 +120,9 @@ partial def pConv (j : Json) : Except String Conv := do
     let s ← pNatList j "subset"
     let depth ← j.getObjValAs? Nat "depth"
     let kind ← j.getObjValAs? String "subsetter"
-    if depth = 1 then
+    if depth ≥ 2 then
+      if kind = "simple" then pure (.subsettedDeep depth s) else throw "depth > 0 only with the simple subsetter"
+    else if depth = 1 then
       if kind = "simple" then pure (.subsettedNested s) else throw "depth 1 only with the simple subsetter"
     else match kind with
       | "simple" => pure (.subsetted 0 s)
@@ -157,6 +166,10 @@ def pkeyJson : PKey → Json
 def dictJson {κ} (fk : κ → Json) (d : Dict κ) : Json :=
   Json.arr (d.map (fun kv => Json.arr #[fk kv.1, ratJson kv.2])).toArray
 
+partial def ndictJson : NDict Cand → Json
+  | .leaf d => dictJson (fun (c : Cand) => toJson c) d
+  | .node cs => Json.arr (cs.map (fun kc => Json.arr #[toJson kc.1, ndictJson kc.2])).toArray
+
 def valJson : Val → Json
   | .simple d => dictJson (fun (c : Cand) => toJson c) d
   | .items d => dictJson itemJson d
@@ -168,11 +181,13 @@ def valJson : Val → Json
   | .grouped d => Json.arr (d.map (fun kv => Json.arr #[pkeyJson kv.1, dictJson (fun (c : Cand) => toJson c) kv.2])).toArray
   | .nested d => Json.arr (d.map (fun kv => Json.arr #[toJson kv.1, dictJson (fun (c : Cand) => toJson c) kv.2])).toArray
   | .districts d => dictJson (fun (c : Nat) => toJson c) d
+  | .deep t => ndictJson t
 
 def outJson (r : Except Err Val) : Json := exceptJson valJson r
 
 /-- the model's own `A + B` must be the dict the harness sent (ties `mergeDict` to Python's dict sum) -/
-def mergeOk : Val → Val → Val → Bool
+def mergeOk (depth : Nat) : Val → Val → Val → Bool
+  | .deep a, .deep b, .deep ab => beqN depth (mergeN depth a b) ab
   | .simple a, .simple b, .simple ab => decide (mergeDict (a ++ b) = ab)
   | .items a, .items b, .items ab => decide (mergeDict (a ++ b) = ab)
   | .approval a, .approval b, .approval ab => decide (mergeDict (a ++ b) = ab)
@@ -186,11 +201,12 @@ def handle (op : String) (j : Json) : Option (Except String Json) :=
   | "convert" => some do
     let kind ← j.getObjValAs? String "kind"
     let conv ← pConv (← j.getObjVal? "conv")
-    let a ← pVal kind (← j.getObjVal? "A")
-    let b ← pVal kind (← j.getObjVal? "B")
-    let ab ← pVal kind (← j.getObjVal? "AB")
-    let singles ← (← pArr (← j.getObjVal? "singles")).mapM (pVal kind)
-    if !mergeOk a b ab then throw "A+B sent by the harness is not mergeDict (A ++ B)"
+    let depth := (j.getObjValAs? Nat "depth").toOption.getD 0
+    let a ← pVal kind (← j.getObjVal? "A") depth
+    let b ← pVal kind (← j.getObjVal? "B") depth
+    let ab ← pVal kind (← j.getObjVal? "AB") depth
+    let singles ← (← pArr (← j.getObjVal? "singles")).mapM (fun s => pVal kind s depth)
+    if !mergeOk depth a b ab then throw "A+B sent by the harness is not mergeDict (A ++ B)"
     pure (Json.mkObj [("A", outJson (applyConv conv a)), ("B", outJson (applyConv conv b)),
       ("AB", outJson (applyConv conv ab)),
       ("singles", Json.arr (singles.map (fun s => outJson (applyConv conv s))).toArray)])
